@@ -112,6 +112,12 @@ class Interproc:
             if pj is not None:
                 if "p" not in pj:
                     return self._resolve_ref(b, pj["l"], depth + 1)
+                if all(el != "*" and el[0] in ("dc", "f") for el in pj["p"]):
+                    # the payload of an Option / tuple returned by a call on a reference (`get_mut(i)`, `first_mut()`,
+                    # `iter_mut().next()`): a pointer into what that reference points to
+                    r = self._resolve_ref(b, pj["l"], depth + 1)
+                    if r is not None:
+                        return (r[0], r[1], True)
         if rv["k"] == "cast":
             pj = rv["a"].get("copy") or rv["a"].get("move")
             if pj is not None and "p" not in pj:
